@@ -29,6 +29,13 @@ CLAIMS = {
          "Sequential half; the concurrent half is not yet built. Tie: E-seq/E-seq0, counters compared and judged by C15.ok after every op.",
          "Lean 4 proof by loop invariant + induction over histories; differential correspondence with Lean judge", "DESIGN §6 C15"),
 }
+ "C04": ("The full property is false of the crate (two characterised deviations, recorded as known findings F1/F2 with Lean counterexamples evaluated on the model and replayed on the crate). Proved: C04_partial — every maker visit takes the head of the hand-out order; leave / replenish-requeue / add / cancel / same-price amend act on the hand-out order exactly as the property prescribes unless F1 or F2. "
+         "Not proved: composition of the per-visit lemmas over a whole match call. Tie: E-seq maker sequences compared with the model, deviations classified by the driver.",
+         "Lean 4 proof (refinement lemmas on the hand-out order, counterexamples by evaluation) + differential correspondence; known findings", "DESIGN §6 C04"),
+ "C19": ("Theorems: refinement of the ticket queue to an abstract FIFO for every operation sequence whose pushes do not re-use a ticketed id (C19_refines/C19_history); for all sequences find/remove/len/is_empty/to_vec see exactly the queued orders; from_vec hands out in list order; decide'd counterexample for the stale-ticket re-push (known finding). "
+         "Tie: E-seq on the exported OrderQueue, every answer compared with the model and judged against the abstract FIFO run by the driver.",
+         "Lean 4 refinement proof + differential correspondence with Lean FIFO judge; known finding", "DESIGN §6 C19"),
+}
 PENDING = {
 }
 ALL = ["C%02d" % i for i in range(1, 20)]
